@@ -95,7 +95,7 @@ def gen(workdir, case):
     cwd = os.getcwd()
     try:
         os.chdir(workdir)
-        gentest('sh cmd.sh', case['script'], list(case['refs']), iterations=case['iterations'],
+        gentest(case.get('command', 'sh cmd.sh'), case['script'], list(case['refs']), iterations=case['iterations'],
                 no_stdout=case.get('no_stdout', False), no_stderr=case.get('no_stderr', False),
                 non_zero_exit=case['code'] != 0, relative_paths=case.get('relative', False))
         return True, ''
@@ -178,6 +178,10 @@ def do_case(args):
             gone = dict(case['files'])
             del gone[name]
             changes.append(('file-deleted', dict(files=gone, _delete=name), None))
+        if case.get('token_line'):
+            # a line that did not hold the excluded machine-specific text (here: the working directory) now does:
+            # a change like any other
+            changes.append(('stdout-now-holds-excluded-text', dict(out='hello from %s/result.txt\n' % work), 'test_stdout'))
         if case.get('extra_changed'):
             # environment-dependent outputs (a file under $TMPDIR is checked by default): the same lines, altered
             changes.append(('tmpdir-file', dict(extra=case['extra_changed']), None))
@@ -244,9 +248,20 @@ def gen_cases(tier, seed):
         # output files named like the generated script's own checks
         ({'stdout': 'a file called stdout\n', 'exit_code': 'a file called exit_code\n'}, ['stdout', 'exit_code']),
     ]
+    # output files whose names hold characters that are alphanumeric but cannot be part of a Python identifier
+    filesets.append(({'x\u00b2.txt': 'squared\n', 'caf\u00e9.txt': 'accent\n'}, ['x\u00b2.txt', 'caf\u00e9.txt']))
+    # a pattern that matches no file (alone, and next to one that does): a warning, the pattern is ignored
+    filesets.append(({}, ['results_*.csv']))
+    filesets.append(({'k1.out': 'one\n', 'k2.out': 'two\n'}, ['*.out', 'nothing_?.log']))
     for i, (files, refs) in enumerate(filesets):
         cases.append(dict(out='made files\n', err='', code=0, files=files, refs=refs, script='test_f%d' % i, iterations=2))
     cases.append(dict(out='fails\n', err='bad\n', code=3, files={}, refs=[], script='test_x1', iterations=2))
+    # a pattern that matches a directory (recorded finding: only directories named explicitly are expanded)
+    cases.append(dict(out='made a directory\n', err='', code=0, files={'outdir/a.txt': 'in a directory\n'}, refs=['out*'],
+                      script='test_globdir', iterations=2, glob_matches_directory=True))
+    # the command text itself holds quotes of every kind (it is quoted in the generated script's documentation string)
+    cases.append(dict(out='quoted\n', err='', code=0, files={}, refs=[], script='test_q3', iterations=2,
+                      command='sh cmd.sh \'\"\"\"\' "it\'s" \\\\'))
     # an output file called STDOUT next to an unterminated stdout: the second run's reference must not be clobbered
     cases.append(dict(out='line one\nno newline at end', err='', code=0, files={'STDOUT': 'a file called STDOUT\n'},
                       refs=['STDOUT'], script='test_so', iterations=2))
@@ -277,7 +292,7 @@ def gen_cases(tier, seed):
         pass
     for name, extra in env_lines:
         cases.append(dict(out='hello\n', err='', code=0, files={'o.txt': 'data\n'}, refs=['o.txt'],
-                          script='test_env_' + name, iterations=2, extra=extra))
+                          script='test_env_' + name, iterations=2, extra=extra, token_line=(name == 'cwd_out')))
     # a directory argument holding a file that exists before generation and is overwritten with its timestamps preserved
     # (cp -p from a template whose modification time is old): it is an output all the same
     keep = ['mkdir -p out template', 'printf "%s\\n" "report v1" > template/r.txt', 'touch -t 202001010000 template/r.txt',
